@@ -7,6 +7,7 @@ import (
 	"context"
 	"errors"
 	"fmt"
+	"io"
 	"runtime"
 	"sync"
 	"sync/atomic"
@@ -363,7 +364,7 @@ type poolCase struct {
 	Kind      string   `json:"kind"` // WorkerPool | HandlerWorkerPool | Cleanup
 	Workers   int      `json:"workers"`
 	Producers int      `json:"producers"`
-	Jobs      []string `json:"jobs"` // ok | error | panic
+	Jobs      []string `json:"jobs"`   // ok | error | panic
 	Early     int      `json:"early"`  // jobs added before the service starts
 	Ending    string   `json:"ending"` // close | cancel
 	Yields    []int    `json:"yields"`
@@ -389,6 +390,12 @@ func runPool(c *poolCase) (string, string) {
 		switch c.Jobs[i] {
 		case "error":
 			jerr[i] = fmt.Errorf("job %d failed", i)
+		case "ctx-error":
+			// an ordinary failure whose cause happens to be a timeout of
+			// something the job did itself
+			jerr[i] = fmt.Errorf("job %d: dialing the backend: %w", i, context.DeadlineExceeded)
+		case "eof-error":
+			jerr[i] = fmt.Errorf("job %d: reading its input: %w", i, io.EOF)
 		}
 		return func(context.Context) error {
 			runs[i].Add(1)
@@ -476,7 +483,7 @@ func runPool(c *poolCase) (string, string) {
 			return "job-not-run", fmt.Sprintf("%s: job %d was accepted (Add returned nil) before the shutdown but ran %d times (%d of %d accepted jobs ran)", c.Kind, i, r, ran.Load(), total)
 		}
 		switch c.Jobs[i] {
-		case "error":
+		case "error", "ctx-error", "eof-error":
 			_, seen := handled.Load(jerr[i])
 			if !errors.Is(werr, jerr[i]) && !seen {
 				return "error-lost", fmt.Sprintf("%s: the error of job %d is neither in Wait's result (%v) nor was it seen by the handler", c.Kind, i, werr)
@@ -511,10 +518,22 @@ func TestPools(t *testing.T) {
 			Kind:      rapid.SampledFrom([]string{"WorkerPool", "HandlerWorkerPool", "Cleanup", "Cleanup"}).Draw(t, "kind"),
 			Workers:   rapid.IntRange(1, 5).Draw(t, "workers"),
 			Producers: rapid.IntRange(1, 4).Draw(t, "producers"),
-			Jobs:      rapid.SliceOfN(rapid.SampledFrom([]string{"ok", "ok", "error", "panic"}), 0, 60).Draw(t, "jobs"),
+			Jobs:      rapid.SliceOfN(rapid.SampledFrom([]string{"ok", "ok", "ok", "error", "error", "panic", "panic", "ctx-error", "eof-error"}), 0, 60).Draw(t, "jobs"),
 			Ending:    rapid.SampledFrom([]string{"close", "cancel"}).Draw(t, "ending"),
 			Yields:    rapid.SliceOfN(rapid.IntRange(0, 3), 1, 5).Draw(t, "yields"),
 			Procs:     rapid.SampledFrom([]int{1, 2, 4, 16}).Draw(t, "gomaxprocs"),
+		}
+		if c.Kind != "Cleanup" {
+			// the pools document that they follow the worker-group
+			// semantics of their options, under which an error that is a
+			// context error or io.EOF ends the group / the worker and is
+			// not reported (C03); only the Cleanup service promises to
+			// isolate every function whatever it returns
+			for i, j := range c.Jobs {
+				if j == "ctx-error" || j == "eof-error" {
+					c.Jobs[i] = "error"
+				}
+			}
 		}
 		c.Early = rapid.IntRange(0, len(c.Jobs)).Draw(t, "early")
 		if c.Kind == "HandlerWorkerPool" {
